@@ -272,4 +272,107 @@ theorem remove_step {X : Nat → Prop} {t : Tab} {a : AS} {L : Nat → List Nat}
         · subst g
           exact h.list_disjoint hj' hk hjk hy hx
 
+theorem RelX.congrX {X X' : Nat → Prop} {t : Tab} {a : AS} {L : Nat → List Nat} (hX : ∀ y, X y ↔ X' y)
+    (h : RelX X t a L) : RelX X' t a L := by
+  have : X = X' := funext fun y => propext (hX y)
+  exact this ▸ h
+
+theorem Links_pSetFree {t : Tab} {h x : Int} {l : List Nat} (u : Int) (b : Bool) (hl : Links t h x l) :
+    Links (pSetFree t u b) h x l :=
+  Links_congr l x (by simp) (fun _ _ => by simp) (by simp) (fun _ _ => by simp) hl
+
+/-- **taking a whole (unlinked) free run**: `set_free(unit, false)`; abstractly `alloc` of the
+exact run. -/
+theorem take_finish {t : Tab} {a : AS} {L : Nat → List Nat} {k s e : Nat}
+    (h : RelX (fun y => y = s) t a L) (hr : IsRun a s e) (hown : a.own s = some k) :
+    setFree t (s : Int) false = .ok (pSetFree t (s : Int) false) ∧
+    Rel (pSetFree t (s : Int) false) (Runs.apply a (.alloc k s (e - s) e)) L := by
+  have hse := hr.1
+  have hlt := h.run_lt hr
+  have ok := h.run s e hr
+  have hsz := h.sizeOf_run hr
+  have hsR : InR t (s : Int) := h.inR_nat (by omega)
+  have hs1 : fMulti t (s : Int) = true → InR t ((s : Int) + 1) := by
+    intro hm; rw [ok.multi] at hm
+    have : s + 1 < e := by simpa using hm
+    exact h.inR (by have := h.hpos; omega) (by omega)
+  have hs2 : sizeOf t (s : Int) > 1 → InR t ((s : Int) + sizeOf t (s : Int) - 1) := by
+    intro _; rw [hsz]; exact h.inR (by have := h.hpos; omega) (by omega)
+  refine ⟨setFree_ok hsR hs1 hs2, ?_⟩
+  have hF : ∀ w : Int, fFree (pSetFree t (s : Int) false) w =
+      if w = (s : Int) ∨ (sizeOf t (s : Int) > 1 ∧ w = (s : Int) + sizeOf t (s : Int) - 1) then false else fFree t w :=
+    fFree_pSetFree hsR hs2
+  have hn : 1 ≤ e - s := by omega
+  have hf : s + (e - s) ≤ e := by omega
+  constructor
+  · simpa using h.hpos
+  · simpa using h.hle
+  · simpa [Runs.apply] using h.size_eq
+  · exact h.units_le
+  · show fFree _ ((a.units : Nat) : Int) = false
+    rw [hF]; split
+    · rfl
+    · exact h.top_free
+  · intro j hj
+    rw [hF]; split
+    · rfl
+    · exact h.head_free j (by simpa using hj)
+  · intro j hj; simpa using h.head_multi j (by simpa using hj)
+  · intro u hu; simpa [Runs.apply] using h.unc u hu
+  · intro x y hxy
+    rcases alloc_run_inv a hr hn hf hxy with ⟨rfl, rfl⟩ | ⟨_, _, h3⟩ | ⟨hxy', hd⟩
+    · have e1 : x + (e - x) = e := by omega
+      rw [e1]
+      constructor
+      · simpa using ok.multi
+      · simpa using ok.sz
+      · have c : x ≤ x ∧ x < x + (e - x) := by omega
+        rw [hF]; simp only [true_or, if_true, Runs.apply, c, and_self]; rfl
+      · intro u h1 h2
+        have c : x ≤ x ∧ x < x + (e - x) := by omega
+        have c' : x ≤ u ∧ u < x + (e - x) := by omega
+        simp only [Runs.apply, c, c', and_self, if_true]
+      · intro j hj
+        have c : x ≤ x ∧ x < x + (e - x) := by omega
+        simp only [Runs.apply, c, and_self, if_true] at hj
+        cases hj
+    · omega
+    · have ok' := h.run x y hxy'
+      have hxy1 := hxy'.1
+      constructor
+      · simpa using ok'.multi
+      · simpa using ok'.sz
+      · rw [hF, hsz]
+        have c1 : ¬ ((x : Int) = (s : Int) ∨ ((e : Int) - s > 1 ∧ (x : Int) = (s : Int) + ((e : Int) - s) - 1)) := by omega
+        have c2 : ¬ (s ≤ x ∧ x < s + (e - s)) := by omega
+        simp only [c1, if_false, Runs.apply, c2]
+        exact ok'.free
+      · intro u h1 h2
+        have c2 : ¬ (s ≤ x ∧ x < s + (e - s)) := by omega
+        have c3 : ¬ (s ≤ u ∧ u < s + (e - s)) := by omega
+        simp only [Runs.apply, c2, c3, if_false]
+        exact ok'.own u h1 h2
+      · intro j hj
+        have c2 : ¬ (s ≤ x ∧ x < s + (e - s)) := by omega
+        simp only [Runs.apply, c2, if_false] at hj
+        obtain ⟨g1, g2⟩ := ok'.mem j hj
+        refine ⟨by simpa using g1, ?_⟩
+        rcases g2 with g | g
+        · exact Or.inl g
+        · omega
+  · intro j hj
+    have hj' : (j : Int) < t.heads := by simpa using hj
+    obtain ⟨q1, q2, q3⟩ := h.list j hj'
+    refine ⟨Links_pSetFree _ _ q1, q2, ?_⟩
+    intro x hx
+    obtain ⟨m1, m2, y, m3⟩ := q3 x hx
+    have hout := h.start_outside hr m3
+    have hxs : x ≠ s := m2
+    have c2 : ¬ (s ≤ x ∧ x < s + (e - s)) := by omega
+    refine ⟨by simp only [Runs.apply, c2, if_false]; exact m1, fun f => f, y, ?_⟩
+    rcases run_eq_or_disjoint a hr m3 with ⟨e1, _⟩ | hd | hd
+    · omega
+    · exact alloc_run_other a hr hn hf m3 (Or.inl hd)
+    · exact alloc_run_other a hr hn hf m3 (Or.inr hd)
+
 end Mmtk.FreeList
